@@ -326,6 +326,34 @@ def run_capture(ctx, case):
     ctx.case(case, True, labels=(f"capture:{t}",))
 
 
+def run_raw(ctx, case):
+    """arbitrary layout-conformant bytes (as found by the fuzzer, don't-care bytes included): library decode ==
+    reference decode, consumed == reference length, and building the block from the decoded values and encoding it
+    gives the reference encoding"""
+    t, fmt, raw = case["t"], case["format"], bytes.fromhex(case["hex"])
+    want, used, _, _ = reftdf.decode(t, fmt, raw)
+    with poison.poisoned(0x41):
+        ok, res = ctx.must(lambda: specs.lib_decode(t, fmt, raw, b"\xAB" * 8), f"{t}/decode-raw-bytes", f"decoding layout-conformant {t} bytes")
+    if ok:
+        blk, consumed = res
+        if consumed != used:
+            ctx.fail(f"{t}/decode-consumed", f"{t}: decode consumed {consumed} bytes, the layout says {used}")
+        ok, got = ctx.must(lambda: specs.extract(blk), f"{t}/read-fields", f"reading the fields of a decoded {t}")
+        if ok:
+            d = specs.first_diff(got, want)
+            if d:
+                ctx.fail(f"{t}/decode-field-{specs.diff_class(d[0])}", f"{t}: {d[0]} decodes to {str(d[1])[:80]}, the bytes say {str(d[2])[:80]}")
+        ok, w = ctx.must(lambda: specs.lib_write(blk), f"{t}/re-encode", f"re-encoding a decoded {t}")
+        ref = reftdf.encode(want)
+        if ok and w != ref:
+            _bytes_differ(ctx, t, w, ref, want)
+    ctx.case(case, specs.n_items(want) >= 1, labels=codec.class_labels(want))
+
+
+def _adapter(spec, raw, tail):
+    return {"t": spec["t"], "format": spec["format"], "hex": raw.hex()}
+
+
 SUBS = [
     Sub("encode", run_encode, strategy=_enc_strategy, budget=(1500, 40000), shards=(4, 16),
         rule="generated valid blocks: library bytes == reference encoder bytes, byte for byte"),
@@ -338,4 +366,7 @@ SUBS = [
     Sub("capture", run_capture, kind="enum", enumerate=enum_capture, shards=(3, 9),
         rule="BTS capture: each block decoded by the library vs reftdf (pinned by golden digests), jump table fields (finite, enumerated)"),
 ]
+SUBS += [Sub(f"fuzz:{t}", run_raw, kind="fuzz", fuzz_target=("spec", t, _adapter), budget=(0, 60000), shards=(1, 2),
+             rule=f"Atheris/libFuzzer, library instrumented: raw bytes that the reference decoder accepts as an in-domain {t} block; "
+                  "library decode vs reference decode, canonical re-encode; seeded and empty corpus") for t in specs.TYPES]
 TIME_BUDGET = {"quick": 150, "thorough": 1500}
